@@ -22,8 +22,8 @@ RULE = (
     'profile restriction, operation) tuples reached'
 )
 ASSUMPTIONS = ['re-adding a name that is still registered and defaultProfiles naming an unregistered profile are API misuse and not generated']
-MIN_EVENTS = {'quick': {'oracle.step': 2500, 'oracle.add-remove-restores': 250, 'oracle.unknown-removal': 150, 'histories': 500},
-              'thorough': {'oracle.step': 60000, 'oracle.add-remove-restores': 6000, 'oracle.unknown-removal': 4000, 'histories': 12000}}
+MIN_EVENTS = {'quick': {'oracle.validate-agrees': 800000, 'oracle.step': 2500, 'oracle.add-remove-restores': 250, 'oracle.unknown-removal': 150, 'histories': 500},
+              'thorough': {'oracle.validate-agrees': 15000000, 'oracle.step': 60000, 'oracle.add-remove-restores': 6000, 'oracle.unknown-removal': 4000, 'histories': 12000}}
 
 CUSTOM = {
     'P1': ({'x-one': '{int}|a|b'}, None),
@@ -34,9 +34,11 @@ CUSTOM = {
     'P6': ({'x-p6': '{x-mycolor}'}, {'x-mycolor': 'baz'}),
     'P7': ({'x-fn': 'yes|{ident}x'}, {'ident': 'q'}),
     'P8': ({'font-size': '{absolute-size}|huge', 'x-eight': '{absolute-size}'}, {'absolute-size': 'tiny'}),
+    # validation functions instead of expressions; the one for x-one (also defined by P1) and for color raises on most values
+    'P9': ({'x-one': lambda v: int(v) > 3, 'x-nine': lambda v: v in ('yes', 'qx'), 'color': lambda v: {'foo': True, 'red': False}[v]}, None),
 }
 NAMES = ['color', 'z-index', 'border-top-style', 'outline-style', 'font-size', 'font', 'width', 'display', 'x-one', 'x-two', 'x-three', 'x-col', 'x-bs',
-         'x-p6', 'x-fn', 'x-eight', 'nosuchprop', 'margin-top', 'opacity', 'src']  # fmt: skip
+         'x-p6', 'x-fn', 'x-eight', 'x-nine', 'nosuchprop', 'margin-top', 'opacity', 'src']  # fmt: skip
 VALUES = ['red', 'foo', 'baz', 'black', '1', '5', 'wavy', 'solid', 'yes', 'qx', '1px', 'block', 'large', 'tiny', 'huge', 'inherit', '0.5', 'a', 'rgba(1, 2, 3, 0.5)', 'url(x)']
 BATTERY = [(n, v) for n in NAMES for v in VALUES if (len(n) + len(v)) % 2 == 0 or n.startswith('x-')]
 
@@ -92,7 +94,7 @@ def diff_sig(a, b):
     return None
 
 
-def run_history(ctx, cssutils, rng, use_global=False, ops_in=None):
+def run_history(ctx, cssutils, rng, use_global=False, ops_in=None, raising_in=None):
     P = cssutils.profiles
     builtins = None
     if use_global:
@@ -103,7 +105,9 @@ def run_history(ctx, cssutils, rng, use_global=False, ops_in=None):
     initial = signature(reg)
     default = None
     ops = []
-    case = {'kind': 'history', 'ops': ops, 'global': use_global}
+    raising = raising_in if raising_in is not None else (rng.random() < 0.5)
+    cssutils.log.raiseExceptions = raising  # (a validation function that raises is reported through the log: raised or only logged)
+    case = {'kind': 'history', 'ops': ops, 'global': use_global, 'raising': raising}
     n = rng.randint(2, 12)
     script = ops_in
     try:
@@ -204,6 +208,13 @@ def run_history(ctx, cssutils, rng, use_global=False, ops_in=None):
             if d:
                 ctx.violation('lockstep.vs-fresh-registry', dict(case, failed_at=step), d)
                 return
+            for (nm, val), (a, b) in zip(BATTERY, sig['verdicts']):
+                if isinstance(a, str) or isinstance(b, str):
+                    continue
+                ctx.count('oracle.validate-agrees')
+                if a != b[0]:
+                    ctx.violation('law.validate-agrees-with-validateWithProfile', dict(case, failed_at=step), {'pair': [nm, val], 'validate': a, 'validateWithProfile': list(b), 'default': default})
+                    return
             # valid <=> some registered profile that defines the property accepts
             for (nm, val), (a, b) in list(zip(BATTERY, sig['verdicts']))[:: 7]:
                 if isinstance(a, str):
@@ -224,7 +235,10 @@ def run_history(ctx, cssutils, rng, use_global=False, ops_in=None):
                 reg.defaultProfiles = None
                 unrestricted = verdict_only(signature(reg))
                 reg.defaultProfiles = list(default)
-                if unrestricted != verdict_only(sig):
+                # (a validation function that raises in raising mode aborts the scan: where either side is an exception the order of the
+                # scan decides, which the restriction legitimately changes)
+                pairs = [(x, y) for x, y in zip(unrestricted, verdict_only(sig)) if not isinstance(x[0], str) and not isinstance(y[0], str) and not isinstance(x[1], str) and not isinstance(y[1], str)]
+                if any(x != y for x, y in pairs):
                     ctx.violation('law.defaults-do-not-change-validity', dict(case, failed_at=step), {'default': default})
                     return
             ctx.seen(['S', sorted(p for p in reg.profiles if p in CUSTOM), len([b for b in builtins if b in reg.profiles]), bool(default), k])
@@ -264,4 +278,5 @@ def replay(ctx, case):
     cssutils, _ = core.import_repo()
     import random
 
-    run_history(ctx, cssutils, random.Random(0), use_global=case.get('global', False), ops_in=[list(o) for o in case['ops']])
+    run_history(ctx, cssutils, random.Random(0), use_global=case.get('global', False), ops_in=[list(o) for o in case['ops']], raising_in=case.get('raising', True))
+    core.canonical_state(cssutils)
